@@ -52,7 +52,7 @@ type LCase struct {
 	Reach     []engine.Step `json:"reach,omitempty"` // fs ops run after the plug: pending in the kernel
 	Overflow  int           `json:"overflow,omitempty"`
 	Churn     int           `json:"churn,omitempty"` // C07: filesystem churn operations per churn goroutine
-	Consumer  string        `json:"consumer"` // both, events, errors, none, stop
+	Consumer  string        `json:"consumer"`        // both, events, errors, none, stop
 	StopAfter int           `json:"stop_after,omitempty"`
 	Calls     []Call        `json:"calls,omitempty"`
 	Suffix    []engine.Step `json:"suffix,omitempty"` // fs ops after Close (C06)
